@@ -265,6 +265,8 @@ class SyncInterpreter(BaseInterpreter[TContext, TEvent]):
                 actor.stop()
             finally:
                 self._actors.pop(actor_id, None)
+                # 🌐 A stopped actor must not stay addressable by systemId.
+                self._unregister_from_system(actor)
 
         # 2️⃣ Cancel all `after` timers by signaling their cancellation events
         for state_id in list(self._after_events.keys()):
